@@ -320,7 +320,9 @@ Definition spec_all_stop_obs (exiting : list tid) (o : obs) : bool :=
 
 (* exactly-once.  owed (x, a) = reports of (x, a) so far - times x has passed a (its counter):
    0, or 1 while x stands on the breakpoint it was reported at.  While the user's breakpoint is
-   not set, passing it unreported is right. *)
+   not set, passing it unreported is right and a report of it is wrong; a breakpoint the user
+   sets again later is a new breakpoint (a thread still standing on the address owes nothing
+   and may be reported by the new one). *)
 Definition zget (l : list ((tid * N) * Z)) (k : tid * N) : Z :=
   match find (fun p => pair_eqb (fst p) k) l with Some p => snd p | None => 0%Z end.
 Definition zset (l : list ((tid * N) * Z)) (k : tid * N) (v : Z) : list ((tid * N) * Z) :=
@@ -333,7 +335,7 @@ Definition nreports (l : list (tid * N)) (k : tid * N) : Z := Z.of_nat (count k 
 Definition owed_step (enabled : bool) (owed : Z) (reports : Z) (before after : N) : Z * bool :=
   let v := (owed + reports - (Z.of_N after - Z.of_N before))%Z in
   if enabled then (v, (0 <=? v)%Z && (v <=? 1)%Z)
-  else (if (v <? 0)%Z then 0%Z else v, (v <=? 1)%Z).
+  else (0%Z, (reports =? 0)%Z).
 
 Definition tids_of (a b : list (tid * (N * N))) : list tid := nodup N.eq_dec (map fst a ++ map fst b).
 
